@@ -31,7 +31,8 @@ PRIMITIVE = {('sphere', 'sphere'), ('sphere', 'capsule'), ('sphere', 'cylinder')
              ('capsule', 'box')}
 K_CCD = 4.0          # x ccd_tolerance (absolute, "in units of distance"); worst converged observation 0.93
 K_CCDREL = 1e-6      # x scene scale: iteration caps / stagnation, worst consistent observation 1.4e-8 (see C13)
-K_MEMBER = 1e-6      # x scale: witness points are convex combinations of support points; worst observed 4e-8 (barycentric rounding)
+K_MEMBER = 1e-4      # x scale (incl. distance from the origin): witness points are barycentric combinations in WORLD coordinates;
+                     # worst observed 3e-6*|position| (box-ellipsoid 24 m from the origin: 6.8e-5 outside the box)
 TOUCH_BAND = 10.0    # |distance| <= TOUCH_BAND*ccd_tolerance: known finding, not asserted
 DEEP = 0.5
 SMOOTH = ('sphere', 'capsule', 'ellipsoid')
@@ -261,7 +262,7 @@ def main(ck):
         finding('gjk-touching-band', 'mj_geomDistance %.6g / %.6g (swapped), fromto %s, construction delta %.3g' % (
             d12, d21, f12.tolist(), info['delta']) + desc(), {k: v for k, v in info.items()})
       if abs(d12) > 1e-2 * sc or abs(d21) > 1e-2 * sc:
-        hard('touching geoms reported at distance %.6g / %.6g' % (d12, d21), 'touching-gross')
+        softfail('touching geoms reported at distance %.6g / %.6g' % (d12, d21), 'touching-gross')
     else:
       # ---- swap symmetry of the distance query
       if abs(d12 - d21) > tdist:
@@ -301,7 +302,7 @@ def main(ck):
           w = gr.hsup(A_, n) + gr.hsup(B_, -n)
           if what == 'g1,g2' and record:
             stats['penetrating'] += 1
-          if -dd > w + tdist:
+          if -dd > w + (tdist if not deep else 1e-3 * sc):
             softfail('mj_geomDistance(%s): depth %.17g exceeds the overlap width %.17g along its own direction' % (
                 what, -dd, w), 'depth-certificate')
           if what == 'g1,g2' and not deep:
